@@ -1,5 +1,6 @@
 import ModVerif.Drv.Util
 import ModVerif.Spec.EditSpec
+import ModVerif.Model.Modfile.Edit
 namespace ModVerif.Drv.Edit
 open ModVerif ModVerif.Drv ModVerif.EditSpec
 
@@ -79,7 +80,10 @@ def decOp : List String → Option Op
   | ["newrequire", a, b, i] => do pure (.addNewRequire (← hx a) (← hx b) ((← hx i) == [49]))
   | ["droprequire", a] => do pure (.dropRequire (← hx a))
   | ["setrequire", l] => do pure (.setRequire (← decReqList l))
+  | ["setrequire", l, _] => do pure (.setRequire (← decReqList l))
   | ["setrequiresep", l] => do pure (.setRequireSeparateIndirect (← decReqList l))
+  | ["setrequiresep", l, _] => do pure (.setRequireSeparateIndirect (← decReqList l))
+  | ["setuse", l, _] => do pure (.setUse (← decUseList l))
   | ["exclude", a, b] => do pure (.addExclude (← hx a) (← hx b))
   | ["dropexclude", a, b] => do pure (.dropExclude (← hx a) (← hx b))
   | ["replace", a, b, c, d] => do pure (.addReplace (← hx a) (← hx b) (← hx c) (← hx d))
@@ -110,12 +114,134 @@ def decOps (toks : List String) : Option (List Op) :=
 def encRes (l : List Bool) : String :=
   if l.isEmpty then "_" else ",".intercalate (l.map fun b => if b then "ok" else "err")
 
+/-! ### edit.session / edit.worksession: the model of the real operations -/
+
+namespace M
+open ModVerif.Modfile ModVerif.Modfile.Edit
+
+def toWant (r : Req) : Want := ⟨r.path, r.vers, r.indirect⟩
+
+def decOp (toks : List String) : Option Edit.Op :=
+  let rev := match toks with
+    | [_, _, f] => f == "1"
+    | _ => false
+  match Drv.Edit.decOp toks with
+  | none => none
+  | some op => some (match op with
+    | .addModule p => .addModule p
+    | .addGo v => .addGo v
+    | .dropGo => .dropGo
+    | .addToolchain n => .addToolchain n
+    | .dropToolchain => .dropToolchain
+    | .addGodebug k v => .addGodebug k v
+    | .dropGodebug k => .dropGodebug k
+    | .addRequire p v => .addRequire p v
+    | .addNewRequire p v i => .addNewRequire p v i
+    | .dropRequire p => .dropRequire p
+    | .setRequire w => .setRequire (w.map toWant) rev
+    | .setRequireSeparateIndirect w => .setRequireSeparateIndirect (w.map toWant) rev
+    | .addExclude p v => .addExclude p v
+    | .dropExclude p v => .dropExclude p v
+    | .addReplace a b c d => .addReplace a b c d
+    | .dropReplace a b => .dropReplace a b
+    | .addRetract a b c => .addRetract a b c
+    | .dropRetract a b => .dropRetract a b
+    | .addTool p => .addTool p
+    | .dropTool p => .dropTool p
+    | .sortBlocks => .sortBlocks
+    | .cleanup => .cleanup
+    | .addUse d m => .addUse d m
+    | .addNewUse d m => .addNewUse d m
+    | .dropUse d => .dropUse d
+    | .setUse w => .setUse w rev)
+
+def decOps (toks : List String) : Option (List Edit.Op) :=
+  if toks.isEmpty then some [] else
+  match toks with
+  | "|" :: rest => (splitBars rest []).mapM decOp
+  | _ => none
+
+def sortStrs (l : List String) : List String := l.mergeSort (fun a b => !(b < a))
+
+def encSorted {α : Type} (enc : α → String) (l : List α) : String :=
+  if l.isEmpty then "_" else ",".intercalate (sortStrs (l.map enc))
+
+def bit (b : Bool) : String := if b then "1" else "0"
+
+def dumpMod (f : File) : String :=
+  " ".intercalate [
+    "M=" ++ encScalar (f.module.map (·.mod.path)), "G=" ++ encScalar (f.go.map (·.version)), "T=" ++ encScalar (f.toolchain.map (·.name)),
+    "D=" ++ encSorted (fun g : Godebug => xh g.key ++ ":" ++ xh g.value) f.godebug,
+    "R=" ++ encSorted (fun r : Require => xh r.mod.path ++ ":" ++ xh r.mod.version ++ ":" ++ bit r.indirect) f.require,
+    "X=" ++ encSorted (fun x : Exclude => xh x.mod.path ++ ":" ++ xh x.mod.version) f.exclude,
+    "P=" ++ encSorted (fun r : Replace => xh r.old.path ++ ":" ++ xh r.old.version ++ ":" ++ xh r.new.path ++ ":" ++ xh r.new.version) f.replace,
+    "C=" ++ encSorted (fun r : Retract => xh r.interval.low ++ ":" ++ xh r.interval.high ++ ":" ++ xh r.rationale) f.retract,
+    "L=" ++ encSorted (fun t : Tool => xh t.path) f.tool, "U=_"]
+
+def dumpWork (f : WorkFile) : String :=
+  " ".intercalate [
+    "M=~", "G=" ++ encScalar (f.go.map (·.version)), "T=" ++ encScalar (f.toolchain.map (·.name)),
+    "D=" ++ encSorted (fun g : Godebug => xh g.key ++ ":" ++ xh g.value) f.godebug,
+    "R=_", "X=_",
+    "P=" ++ encSorted (fun r : Replace => xh r.old.path ++ ":" ++ xh r.old.version ++ ":" ++ xh r.new.path ++ ":" ++ xh r.new.version) f.replace,
+    "C=_", "L=_", "U=" ++ encSorted (fun u : Use => xh u.path) f.use]
+
+def opName : Edit.Op → String
+  | .addModule _ => "module" | .addGo _ => "go" | .dropGo => "dropgo" | .addToolchain _ => "toolchain"
+  | .dropToolchain => "droptoolchain" | .addGodebug _ _ => "godebug" | .dropGodebug _ => "dropgodebug"
+  | .addRequire _ _ => "require" | .addNewRequire _ _ _ => "newrequire" | .dropRequire _ => "droprequire"
+  | .setRequire _ _ => "setrequire" | .setRequireSeparateIndirect _ _ => "setrequiresep"
+  | .addExclude _ _ => "exclude" | .dropExclude _ _ => "dropexclude" | .addReplace _ _ _ _ => "replace"
+  | .dropReplace _ _ => "dropreplace" | .addRetract _ _ _ => "retract" | .dropRetract _ _ => "dropretract"
+  | .addTool _ => "tool" | .dropTool _ => "droptool" | .sortBlocks => "sortblocks" | .cleanup => "cleanup"
+  | .addUse _ _ => "use" | .addNewUse _ _ => "newuse" | .dropUse _ => "dropuse" | .setUse _ _ => "setuse"
+
+def sessionMod (file : Bytes) (ops : List Edit.Op) : String :=
+  match parseStrict (B "go.mod") file none with
+  | .error _ => "err:parse"
+  | .ok f =>
+    match runOps applyMod (load f) ops [] 0 with
+    | .badOp => "bad-op"
+    | .panic i => "panic:" ++ ((ops[i]?).map opName).getD "?"
+    | .done e res =>
+      let e := cleanup e
+      let out := format e.f.syn
+      let re := match parseStrict (B "go.mod") out none with
+        | .ok g => dumpMod g
+        | .error _ => "err:reparse"
+      "ops=" ++ encRes res ++ " typed: " ++ dumpMod e.f ++ " fmt=" ++ xh out ++ " reparse: " ++ re
+
+def sessionWork (file : Bytes) (ops : List Edit.Op) : String :=
+  match parseWork (B "go.work") file none with
+  | .error _ => "err:parse"
+  | .ok f =>
+    match runOps applyWork (loadWork f) ops [] 0 with
+    | .badOp => "bad-op"
+    | .panic i => "panic:" ++ ((ops[i]?).map opName).getD "?"
+    | .done e res =>
+      let e := workCleanup e
+      let out := format e.f.syn
+      let re := match parseWork (B "go.work") out none with
+        | .ok g => dumpWork g
+        | .error _ => "err:reparse"
+      "ops=" ++ encRes res ++ " typed: " ++ dumpWork e.f ++ " fmt=" ++ xh out ++ " reparse: " ++ re
+
+end M
+
 def handle : Handler
   | "absstep", kind :: rest =>
     if kind != "mod" && kind != "work" then none else do
     let f ← decAbs (rest.take 10)
     let ops ← decOps (rest.drop 10)
     pure ("ops=" ++ encRes (runOk stdValidity f ops) ++ " abs: " ++ encAbs (run stdValidity f ops))
+  | "session", file :: rest => do
+    let file ← hx file
+    let ops ← M.decOps rest
+    pure (M.sessionMod file ops)
+  | "worksession", file :: rest => do
+    let file ← hx file
+    let ops ← M.decOps rest
+    pure (M.sessionWork file ops)
   | _, _ => none
 
 end ModVerif.Drv.Edit
